@@ -116,7 +116,9 @@ def run(chk, tier):
     f, outs = run_fn('ipv4_word_sum')
     got = sorted({vshow(o.value) for o in outs if o.kind == 'return'})
     w = lambda a, b: r'BitOr\(Shl\((?:as_u32\()?index\(call:Ipv4Addr::octets\(ip\), %d\)\)?, 8\), (?:as_u32\()?index\(call:Ipv4Addr::octets\(ip\), %d\)\)?\)' % (a, b)
-    if len(got) == 1 and (re.fullmatch(r'Add\(%s, %s\)' % (w(0, 1), w(2, 3)), got[0]) or re.fullmatch(r'Add\(%s, %s\)' % (w(2, 3), w(0, 1)), got[0])):
+    w2 = lambda a, b: r'(?:as_u32\()?call:num::from_be_bytes\(\[index\(call:Ipv4Addr::octets\(ip\), %d\), index\(call:Ipv4Addr::octets\(ip\), %d\)\]\)\)?' % (a, b)
+    forms = [r'Add\(%s, %s\)' % (x(0, 1), y(2, 3)) for x in (w, w2) for y in (w, w2)] + [r'Add\(%s, %s\)' % (x(2, 3), y(0, 1)) for x in (w, w2) for y in (w, w2)]
+    if len(got) == 1 and any(re.fullmatch(fm, got[0]) for fm in forms):
         chk.ok('R2', 'ipv4_word_sum', 'be16(octets[0..2]) + be16(octets[2..4])')
     else:
         chk.fail('R2', 'ipv4_word_sum', fn_loc(f), 'ipv4_word_sum is %s, not the two big-endian words of the address' % got, key='R2|ipv4_word_sum')
@@ -166,20 +168,111 @@ def run(chk, tier):
         cur = [l_ for ty_, ls in by_ty.items() if re.fullmatch(r"&(?:'\w+ )?\[u8\]", ty_) for l_ in ls]
         acc = by_ty.get('u32', [])
         idx = by_ty.get('usize', [])
-        if len(cur) == 1 and len(acc) == 1 and len(idx) == 1 and f['argc'] == 2:
+        iterform = any(f['blocks'][bi_]['term']['k'] == 'call' and re.search(r'Enumerate<.*ChunksExact<.*::next$', f['blocks'][bi_]['term'].get('callee_args') or '')
+                       for bi_ in body_blocks)
+        if iterform and len(acc) == 1 and f['argc'] == 2:
+            names = {'data': 1, 'ignore_word': 2, 'sum': acc[0], 'cur_data': None, 'i': None}
+        elif len(cur) == 1 and len(acc) == 1 and len(idx) == 1 and f['argc'] == 2:
             names = {'data': 1, 'ignore_word': 2, 'cur_data': cur[0], 'sum': acc[0], 'i': idx[0]}
     need = ['data', 'ignore_word', 'cur_data', 'sum', 'i']
     if len(heads) != 1 or any(n not in names for n in need):
         chk.fail('R3', 'shape', fn_loc(f), 'sum_be_words: expected one loop whose body advances one byte-slice cursor, one usize word index and one u32 accumulator (loops %s)' % (heads,), key='R3|shape')
     else:
         head = heads[0]
-        class BodyEngine(RangeEngine):
-            # the loop body is evaluated once from a hand-made symbolic head state: no havoc, no loop closing
-            def on_block(self, fn, fid, bb, s, nvisit):
-                pass
+        if iterform:
+            _r3_iter(chk, prog, f, head, names)
+        else:
+            _r3_while(chk, prog, f, head, names)
+    chk.ok('R3', 'induction', 'offset = 2·index is preserved (R3 entry + iteration): word k is bytes 2k, 2k+1', nontrivial=False)
+    _r4_r5(chk, prog)
 
-            def loop_closed(self, fn, bb):
-                return False
+
+class BodyEngine(RangeEngine):
+    # the loop body is evaluated once from a hand-made symbolic head state: no havoc, no loop closing
+    def on_block(self, fn, fid, bb, s, nvisit):
+        pass
+
+    def loop_closed(self, fn, bb):
+        return False
+
+
+TAIL = r'Add\(sum0, Shl\((?:as_u32\()?index\(data, Sub\(len\(data\), 1\)\)\)?, 8\)\)'
+
+
+def _tri(cdx, atom):
+    kv = canon(atom, 1)
+    return None if cdx.get(kv[0]) is None else int(cdx.get(kv[0]) == kv[1])
+
+
+def _r3_iter(chk, prog, f, head, names):
+    """`for (i, word) in data.chunks_exact(2).enumerate()`: by the std contract the k-th item is (k, data[2k..2k+2]) for k < len/2 and the loop
+    ends after len/2 items; the body is evaluated once on a symbolic item (index#k, chunk#k)."""
+    e3 = BodyEngine(prog, inline_depth=1)
+    st = St()
+    st.nframes += 1
+    fid = st.nframes
+    st.mem[(fid, 1)] = e3.sym_ref(st, 'data')
+    st.mem[(fid, 2)] = ('sym', 'ignore_word')
+    pre = e3.run_region(f, fid, 0, st, {head})
+    stops = [o for o in pre if o.kind == 'stop']
+    early = [o for o in pre if o.kind != 'stop']
+    ok0 = len(stops) == 1 and vshow(e3.purify(stops[0].st.mem.get((fid, names['sum'])), stops[0].st)) == '0'
+    if ok0 and all(o.kind == 'return' and vshow(o.value) == '0' and [(vshow(a), v) for a, v, _ in o.st.decisions] == [('Eq(len(data), 0)', 1)] for o in early):
+        chk.ok('R3', 'entry', 'sum = 0 (empty input returns 0); the iterator is checked with the iteration')
+    else:
+        chk.fail('R3', 'entry', fn_loc(f), 'sum_be_words does not enter its loop with sum = 0 (%s)' % [o.kind for o in pre], key='R3|entry')
+    if not stops:
+        chk.fail('R3', 'iteration', fn_loc(f), 'sum_be_words: the loop head is not reached', key='R3|iteration')
+        return
+    s1 = stops[0].st.fork()
+    s1.decisions = []
+    s1.events = []
+    s1.facts = {}
+    s1.mem[(fid, names['sum'])] = ('sym', 'sum0')
+    body = e3.run_region(f, fid, head, s1, {head})
+    ITER = r'discr\(call:Enumerate::next\(call:IntoIterator::into_iter\(call:Iterator::enumerate\(call:slice::chunks_exact\(data, 2\)\)\)\)\)'
+    it, ex = {}, {}
+    for o in body:
+        d = tuple((vshow(a), v) for a, v, _ in o.st.decisions)
+        if o.kind == 'stop':
+            it[d] = vshow(e3.purify(o.st.mem.get((fid, names['sum'])), o.st))
+        else:
+            ex[d] = vshow(o.value) if o.kind == 'return' else o.kind
+    okb, whyb = len(it) == 2, ''
+    for d, val in it.items():
+        m = len(d) == 2 and re.fullmatch(ITER, d[0][0]) and d[0][1] == 1 and re.fullmatch(r'Ne\(index#(\d+), ignore_word\)|Ne\(ignore_word, index#(\d+)\)|Eq\(index#(\d+), ignore_word\)|Eq\(ignore_word, index#(\d+)\)', d[1][0])
+        if not m:
+            okb, whyb = False, 'iteration decisions %s' % (d,)
+            continue
+        k = [g for g in m.groups() if g][0]
+        add = (d[1][1] == 1) == d[1][0].startswith('Ne')
+        wsum = (r'Add\(sum0, (?:as_u32\()?call:num::from_be_bytes\((?:\[index\(chunk#%s, 0\), index\(chunk#%s, 1\)\]|array_of\(chunk#%s\))\)\)?\)' % (k, k, k)) if add else r'sum0'
+        if not re.fullmatch(wsum, val):
+            okb, whyb = False, 'with index %s skipped word one iteration gives sum = %s' % ('≠' if add else '=', val)
+    if okb:
+        chk.ok('R3', 'iteration', 'item k of chunks_exact(2).enumerate() over the whole of data is (k, data[2k..2k+2]); sum += be16(item) iff k ≠ skipped word')
+    else:
+        chk.fail('R3', 'iteration', fn_loc(f), 'sum_be_words loop body: %s' % (whyb or it), key='R3|iteration')
+    oke, whye, seen_tail = True, '', set()
+    for d, val in ex.items():
+        if not (d and re.fullmatch(ITER, d[0][0]) and d[0][1] == 0):
+            oke, whye = False, 'leaves the loop under %s' % (d,)
+            continue
+        cdx = cdec(list(d[1:]))
+        ne = _tri(cdx, 'Ne(Div(len(data), 2), ignore_word)')
+        odd = _tri(cdx, 'Ne(BitAnd(len(data), 1), 0)')
+        tail = ne == 1 and odd == 1
+        seen_tail.add((ne, odd))
+        if not re.fullmatch(TAIL if tail else r'sum0', val):
+            oke, whye = False, 'on exit with (len/2 ≠ skipped: %s, odd length: %s) returns %s' % (ne, odd, val)
+    if oke and (1, 1) in seen_tail and len(ex) >= 3:
+        chk.ok('R3', 'exit', 'returns sum, plus data[len−1] << 8 iff the length is odd and the tail word (index len/2) is not the skipped one')
+    else:
+        chk.fail('R3', 'exit', fn_loc(f), 'sum_be_words: %s' % (whye or ex), key='R3|exit')
+
+
+def _r3_while(chk, prog, f, head, names):
+    if True:
         e3 = BodyEngine(prog, inline_depth=1)
         st = St()
         st.nframes += 1
@@ -287,8 +380,9 @@ def run(chk, tier):
                 chk.ok('R3', 'exit', 'returns sum, plus data[len−1] << 8 iff the length is odd and the tail word is not the skipped one')
             else:
                 chk.fail('R3', 'exit', fn_loc(f), 'sum_be_words: %s' % (whye or ex), key='R3|exit')
-    chk.ok('R3', 'induction', 'offset = 2·index is preserved (R3 entry + iteration): word k is bytes 2k, 2k+1', nontrivial=False)
 
+
+def _r4_r5(chk, prog):
     # ---- R4 ---------------------------------------------------------------------------------------------------
     ff = prog.find(r'checksum::finalize_checksum$')
     chk.fn_seen(ff['path'])
